@@ -325,6 +325,8 @@ TFinalNext ==
 TStuck ==
     /\ l <= Len(Rec) /\ R.e \in {"deadlock", "livelock", "panic", "aborted"} /\ l' = l + 1
     /\ viol' = viol \cup {R.e}
+                    \cup Flag(R.e \in {"deadlock", "livelock"} /\ "hdepth" \in DOMAIN R /\ R.hdepth > 0,
+                              "handler_blocked_or_spinning")
     /\ Keep(<<acts, frames, dropped, usedIds, before, libDisp, prevKind, live, cur, replaced, held,
               everFreed>>)
 
@@ -353,7 +355,7 @@ C01set == {"act_after_removed", "act_uses_released_state", "act_in_progress_at_u
            "failed_registration_leaks_action", "dropped_while_registered"}
 C02set == {"ran_twice", "not_registered_during_delivery", "wrong_signal",
            "actions_overlap_in_one_delivery", "registered_action_did_not_run", "order"}
-C03set == {"handler_lock", "handler_hint", "handler_alloc", "handler_free", "handler_steps",
+C03set == {"handler_blocked_or_spinning", "handler_lock", "handler_hint", "handler_alloc", "handler_free", "handler_steps",
            "guard_outlives_delivery"}
 C04set == {"prev_twice", "prev_after_action", "prev_wrong_signal", "prev_convention",
            "prev_arguments", "prev_outside_delivery", "prev_missing_before_action",
